@@ -156,12 +156,15 @@ func (pConn *PFCPConn) SendPFCPMsg(msg message.Message) {
 func (pConn *PFCPConn) sendPFCPRequestMessage(r *Request) (message.Message, bool) {
 	pConn.pendingReqs.Store(r.msg.Sequence(), r)
 
+	verifPoint("conn.req.tx", pConn.RemoteAddr().String(), r.msg.Sequence(), 0)
 	pConn.SendPFCPMsg(r.msg)
 	retriesLeft := pConn.upf.maxReqRetries
 
 	for {
 		if reply, rc := r.GetResponse(pConn.shutdown, pConn.upf.respTimeout); rc {
 			logger.PfcpLog.Debugln("request timeout, retries left:", retriesLeft)
+
+			verifPoint("conn.req.timeout", pConn.RemoteAddr().String(), r.msg.Sequence(), retriesLeft)
 
 			if retriesLeft > 0 {
 				pConn.SendPFCPMsg(r.msg)
